@@ -4,6 +4,7 @@ package main
 
 import (
 	"fmt"
+	"path/filepath"
 	"sort"
 	"strings"
 
@@ -182,6 +183,10 @@ func analyse(x *Exec) *RunResult {
 					return 0
 				}())})
 		}
+		// a descriptor that child processes inherit outlives Close for as long as they live
+		if wr.Inst != nil && !wr.Inst.CloExec {
+			add(Violation{Kind: "fd-leak", Watcher: wr.Idx, Site: "not-close-on-exec", Detail: "the inotify instance was created without IN_CLOEXEC: every child process started while the Watcher is open keeps the instance and its watches alive after Close"})
+		}
 		// cap(Events)
 		want := wr.BufReq
 		if want < 0 {
@@ -189,6 +194,32 @@ func analyse(x *Exec) *RunResult {
 		}
 		if wr.Cap != want {
 			add(Violation{Kind: "cap-mismatch", Watcher: wr.Idx, Site: "NewBufferedWatcher", Detail: fmt.Sprintf("cap(Events)=%d, requested %d", wr.Cap, wr.BufReq)})
+		}
+		// "... reporting Remove unless the watched parent directory already did": when
+		// the kernel reports the end of a watched file (DELETE_SELF) and the removal of
+		// its entry from a watched directory (DELETE) for one and the same unlink, the
+		// Remove is delivered once, not under both spellings
+		if wr.Inst != nil {
+			for i := 0; i+1 < len(wr.D); i++ {
+				a, b := wr.D[i], wr.D[i+1]
+				if a.Op&mRemove == 0 || b.Op&mRemove == 0 || filepath.Clean(a.Name) != filepath.Clean(b.Name) {
+					continue
+				}
+				base := filepath.Base(filepath.Clean(a.Name))
+				selfStep := map[int]bool{}
+				for _, r := range wr.Inst.Fed {
+					if r.Mask&unix.IN_DELETE_SELF != 0 {
+						selfStep[r.Step] = true
+					}
+				}
+				for _, r := range wr.Inst.Fed {
+					if r.Mask&unix.IN_DELETE != 0 && r.Name == base && selfStep[r.Step] {
+						add(Violation{Kind: "phantom-event", Watcher: wr.Idx, Site: "duplicate-remove",
+							Detail: fmt.Sprintf("one unlink (step %d) was reported twice in a row: %s, %s", r.Step, a.Str, b.Str)})
+						break
+					}
+				}
+			}
 		}
 		// simple scans
 		for _, d := range wr.D {
